@@ -507,8 +507,37 @@ static int setup_instance(const struct fam *f)
 	return 1;
 }
 
+/* ISA measurement run (C12 phase 0): a short scripted history per instance that reaches the N-lane kernel
+ * (lanes full), the flush path with few and many live lanes (single-buffer / SHA-NI fallbacks) and the padding path */
+static void run_trace(void)
+{
+	long item = 0;
+	for (unsigned fi = 0; fi < NFAM; fi++) {
+		if (item++ % vk_nshards != vk_shard) continue;
+		if (!setup_instance(&fams[fi])) continue;
+		free(pre_img); pre_img = malloc(arena_size);
+		unsigned B = A->block;
+		fresh_system();
+		if (faulted) continue;
+		sym s;
+		s = (sym){ 1, 0, ISAL_HASH_ENTIRE, 3, 0 }; if (apply(&s)) continue;
+		s = (sym){ 0 }; apply(&s);
+		for (unsigned k = 0; k < L + 1 && k < K; k++) { int c = lowest(M_FRESH, M_COMPLETE); if (c < 0) break; s = (sym){ 1, (uint8_t)c, ISAL_HASH_ENTIRE, B + 1 + (k % 3) * B, 0 }; if (apply(&s)) break; }
+		for (int g = 0; g < 64 && M.ninflight > 0; g++) { s = (sym){ 0 }; if (apply(&s)) break; }
+		for (unsigned k = 0; k < 2 && k < K; k++) { int c = lowest(M_FRESH, M_COMPLETE); if (c < 0) break; s = (sym){ 1, (uint8_t)c, ISAL_HASH_FIRST, B - 1, 0 }; if (apply(&s)) break; }
+		for (int g = 0; g < 8 && M.ninflight > 0; g++) { s = (sym){ 0 }; if (apply(&s)) break; }
+		{ int c = lowest(M_IDLE, M_IDLE); if (c >= 0) { s = (sym){ 1, (uint8_t)c, ISAL_HASH_UPDATE, 2 * B + 3, 0 }; apply(&s); } }
+		for (int g = 0; g < 8 && M.ninflight > 0; g++) { s = (sym){ 0 }; if (apply(&s)) break; }
+		for (int r = 0; r < 2; r++) { int c = lowest(M_IDLE, M_IDLE); if (c >= 0) { s = (sym){ 1, (uint8_t)c, ISAL_HASH_LAST, 1, 0 }; apply(&s); } }
+		for (int g = 0; g < 8 && M.ninflight > 0; g++) { s = (sym){ 0 }; if (apply(&s)) break; }
+		s = (sym){ 0 }; apply(&s);
+		vk_stat("trace_histories", 1);
+	}
+}
+
 static void run_explore(void)
 {
+	if (vk_want_trace) { run_trace(); return; }
 	const char *v; int d4 = vk_thorough ? 3 : 2, d8 = vk_thorough ? 2 : 1, d16 = vk_thorough ? 2 : 1;
 	if (vk_opt("d4", &v)) d4 = atoi(v);
 	if (vk_opt("d8", &v)) d8 = atoi(v);
@@ -518,7 +547,7 @@ static void run_explore(void)
 	frames = calloc(maxdepth, sizeof *frames);
 	long item = 0;
 	for (unsigned fi = 0; fi < NFAM; fi++) for (int pol = 0; pol < 4; pol++) {
-		if (vk_only && !strstr(vk_only, algs[fams[fi].alg].name) ) { }
+		if (vk_want_trace && pol != 0 && pol != 2) continue;
 		char nm[64]; snprintf(nm, sizeof nm, "%s_%s", algs[fams[fi].alg].name, fams[fi].name);
 		if (vk_only && strcmp(vk_only, nm) && strcmp(vk_only, algs[fams[fi].alg].name)) continue;
 		if (item++ % vk_nshards != vk_shard) continue;
@@ -527,6 +556,7 @@ static void run_explore(void)
 		if (pair_mode) { free(curB); free(tmpA); curB = malloc(arena_size); tmpA = malloc(arena_size); }
 		free(pre_img); pre_img = malloc(arena_size);
 		int dmax = L <= 4 ? d4 : L <= 8 ? d8 : d16;
+		if (vk_want_trace) dmax = 0;
 		if (public_entry && dmax > 1) dmax = 1;
 		for (int d = 0; d <= dmax; d++) {
 			/* iterate the bound: 0, 1, 2 ... ; each bound re-explores from scratch with a fresh table */
@@ -566,6 +596,7 @@ static void run_seg(void)
 		memset(seg_ref_ok, 0, sizeof seg_ref_ok);
 		unsigned step3 = vk_thorough ? 1 : 0;
 		for (unsigned l1 = 0; l1 <= maxl; l1++) for (unsigned l2 = 0; l2 <= maxl; l2++) {
+			if (vk_want_trace && (l1 % 43 || l2 % 47)) continue;
 			if (vk_deadline_hit()) { vk_stat("deadline_skipped", 1); goto next; }
 			/* variants: FIRST/LAST ; FIRST/UPDATE/LAST(0) ; ENTIRE(l1) when l2==0 ; (thorough) three pieces */
 			for (int var = 0; var < 3 + (int)step3; var++) {
@@ -658,6 +689,7 @@ int main(int argc, char **argv)
 	if (vk_opt("entry", &v)) public_entry = !strcmp(v, "public");
 	if (vk_opt("validonly", &v)) only_valid_deviations = 1;
 	pair_mode = !strcmp(prop, "C20"); guard_mode = !strcmp(prop, "C08");
+	if (vk_want_trace) vk_trace_enable();
 	if (!strcmp(prop, "C19")) vk_call_mode = VC_POISON_REGS;
 	if (pair_mode) vk_call_mode = VC_POISON_REGS | VC_STACK;
 	if (ref_run_kats(0)) { fprintf(stderr, "reference KATs failed\n"); return 2; }
